@@ -481,6 +481,12 @@ PROPS = {
             "C18_native_error_wrapped": [],
             "C18_fail0_is_task_failure": [],
             "C18_native_unknown": [],
+            "C18_native_args_str1": [],
+            "C18_native_args_nil1": [],
+            "C18_native_args_mix3": [],
+            "C18_native_args_t4": [],
+            "C18_conversion_error_t4": [],
+            "C18_reentry_balanced_partial": [],
         },
         n_quick=200, n_thorough=2000,
         gates=["feature.native", "feature.native_arity4", "feature.native_value_call", "feature.reentry",
@@ -512,9 +518,13 @@ PROPS = {
             "(run_function), value.rs (TryFrom conversions), the natives registered by harness/src/vmrun.rs",
         ],
         assumptions=[
-            "PARTIAL: theorems cover the arity-2 wrapper with i64 conversions, the &str conversion failure and error "
-            "wrapping for every menu native; arities 1/3/4, the other conversions and reentry_balanced are claimed by "
-            "the correspondence run only",
+            "PARTIAL: theorems cover one wrapper of every arity 1-4 (str1, nil1 = Nilable<i64>, sub2, mix3, t4) with the "
+            "i64 / f64 / bool / &str / Value / Nilable conversions, conversion failures (str1, t4: last parameter "
+            "first) and error wrapping for every menu native; the remaining natives of the menu are claimed by the "
+            "correspondence run and the conv_spec oracle only",
+            "reentry_balanced is proved from the point where the callee reaches its Return with the caller's stack "
+            "part and frames intact (C18_reentry_balanced_partial); that compiled callee bodies keep them intact "
+            "(frame discipline) is claimed by the rb1 oracle only",
             "host functions are the fixed menu; `register_native_function` itself is not modelled (the reserved-name "
             "rule is checked on the implementation directly)",
         ],
